@@ -31,6 +31,13 @@ func init() {
 					obs = append(obs, o)
 				}
 			}
+			in := pkgPred("net/packet")
+			obs = append(obs, c.TLGObs(in, in, false)...)
+			for _, o := range c.RawRead() {
+				if strings.HasPrefix(o.Key, "net/packet.") {
+					obs = append(obs, o)
+				}
+			}
 			// composition: Marshal/Builder must not hand out memory that is recycled
 			obs = append(obs, c.Pools("net/packet")...)
 			obs = append(obs, c.VarLen()...)
